@@ -294,11 +294,33 @@ static void do_lh(vh::Out &o, long long ci, uint64_t len, uint64_t seed, int pat
     }
 }
 
-static void do_mt(vh::Out &o, long long ci, uint64_t rows, uint64_t cols, uint64_t dim, uint64_t batch, int nth, uint64_t seed)
+// rowpat: 0 seeded; 1 all rows equal; 2 rows A,B,A,A repeated; 3 rows drawn from {A,B}; 4 all zero; 5 every row constant
+// (one word repeated) with two alternating words.   env: OpenMP delivery environment (vh::with_env)
+static void do_mt(vh::Out &o, long long ci, uint64_t rows, uint64_t cols, uint64_t dim, uint64_t batch, int nth, uint64_t seed, int rowpat = 0, int env = 0)
 {
     uint64_t nelem = MerklehashGoldilocks::getTreeNumElements(rows);
     std::vector<uint64_t> data(rows * cols * dim);
     fill(data, seed);
+    if (rowpat && rows * cols * dim > 0)
+    {
+        uint64_t w = cols * dim;
+        std::vector<uint64_t> A(data.begin(), data.begin() + w), B(w);
+        fill(B, seed ^ 0xB0B);
+        vh::Rng pick(seed ^ 0x77);
+        for (uint64_t r = 0; r < rows; r++)
+            for (uint64_t c = 0; c < w; c++)
+            {
+                uint64_t &x = data[r * w + c];
+                switch (rowpat)
+                {
+                case 1: x = A[c]; break;
+                case 2: x = (r % 4 == 1) ? B[c] : A[c]; break;
+                case 3: x = ((seed >> (r % 60)) & 1) ? B[c] : A[c]; break;
+                case 4: x = 0; break;
+                default: x = (r % 2) ? A[0] : B[0]; break;
+                }
+            }
+    }
     const char *names[] = {"seq", "avx", "wrapper", "batch_seq", "batch_avx", "batch_wrapper", "avx512", "batch_avx512"};
     for (int b = 0; b < 8; b++)
     {
@@ -315,6 +337,7 @@ static void do_mt(vh::Out &o, long long ci, uint64_t rows, uint64_t cols, uint64
         perms.clear();
         goldilocks_verif_tracer = tracer;
         E *T = (E *)tree.p, *I = (E *)in.p;
+        vh::with_env(env, [&]() {
         switch (b)
         {
         case 0: PoseidonGoldilocks::merkletree_seq(T, I, cols, rows, nth, dim); break;
@@ -328,6 +351,7 @@ static void do_mt(vh::Out &o, long long ci, uint64_t rows, uint64_t cols, uint64
         case 7: PoseidonGoldilocks::merkletree_batch_avx512(T, I, cols, rows, batch, nth, dim); break;
 #endif
         }
+        });
         goldilocks_verif_tracer = nullptr;
         E root[4], root2[4];
         E *rootp = root;
@@ -335,6 +359,8 @@ static void do_mt(vh::Out &o, long long ci, uint64_t rows, uint64_t cols, uint64
         memcpy(root2, root, 32); // (the array-reference overload is ambiguous with the pointer one for array arguments)
         o.begin("mt");
         o.num("ci", ci);
+        o.num("rowpat", rowpat);
+        o.num("env", env);
         o.str("builder", names[b]);
         o.boolean("batched", batched);
         o.num("rows", rows);
@@ -380,7 +406,7 @@ static void do_case(vh::Out &o, long long ci, const std::vector<std::string> &t)
     else if (t[0] == "lh")
         do_lh(o, ci, vh::parse_u64(t[1]), vh::parse_u64(t[2]), t.size() > 3 ? atoi(t[3].c_str()) : 0, t.size() > 4 ? atoi(t[4].c_str()) : 0);
     else if (t[0] == "mt")
-        do_mt(o, ci, vh::parse_u64(t[1]), vh::parse_u64(t[2]), vh::parse_u64(t[3]), vh::parse_u64(t[4]), atoi(t[5].c_str()), vh::parse_u64(t[6]));
+        do_mt(o, ci, vh::parse_u64(t[1]), vh::parse_u64(t[2]), vh::parse_u64(t[3]), vh::parse_u64(t[4]), atoi(t[5].c_str()), vh::parse_u64(t[6]), t.size() > 7 ? atoi(t[7].c_str()) : 0, t.size() > 8 ? atoi(t[8].c_str()) : 0);
     else if (t[0] == "consts")
         do_consts(o);
 }
